@@ -30,6 +30,7 @@ import (
 	"time"
 
 	"github.com/rqlite/rqlite/v10/auto/backup"
+	command "github.com/rqlite/rqlite/v10/command/proto"
 	rdb "github.com/rqlite/rqlite/v10/db"
 )
 
@@ -159,6 +160,23 @@ func (d *c37E2EProvider) Provide(w io.WriteSeeker) error {
 	}
 	d.used = true
 	return d.p.Provide(&c37FaultFile{f: f, failAt: d.failAt, onFail: d.onFail})
+}
+
+// c37BlockingWriter accepts the first chunk of a backup and then blocks until released: a slow
+// client of an operator's /db/backup, during which Store.Backup holds the snapshot gate.
+type c37BlockingWriter struct {
+	holding chan struct{}
+	release chan struct{}
+	once    bool
+}
+
+func (w *c37BlockingWriter) Write(p []byte) (int, error) {
+	if !w.once {
+		w.once = true
+		close(w.holding)
+		<-w.release
+	}
+	return len(p), nil
 }
 
 // ---- scripted storage client ---------------------------------------------------------------
@@ -487,6 +505,92 @@ func TestVerifC37Store(t *testing.T) {
 		}
 	}
 	rep.vfCompareSegments("uploader", segOps, segImpl)
+
+	// ---------- 1c. directed schedule: the snapshot gate is held by an operator's backup ----------
+	// An operator backup streams into a slow client and holds the gate; a write commits (it lives
+	// only in the WAL); upload rounds fire; the operator's backup finishes. Whatever the Uploader
+	// uploads, labelled l, must contain every write committed at or below l.
+	{
+		st := &c37Storage{s: s, rng: vfNewRng(3798)}
+		prov := NewProvider(s, false, false)
+		prov.retryInterval = 40 * time.Millisecond
+		up := backup.NewUploader(st, prov, 15*time.Millisecond)
+		ctx, cancel := context.WithCancel(context.Background())
+		done := up.Start(ctx, nil)
+		waitLabel := func(idx uint64) bool {
+			deadline := time.Now().Add(20 * time.Second)
+			for time.Now().Before(deadline) {
+				st.mu.Lock()
+				id := st.remoteID
+				st.mu.Unlock()
+				if id == strconv.FormatUint(idx, 10) {
+					return true
+				}
+				time.Sleep(5 * time.Millisecond)
+			}
+			return false
+		}
+		_ = write()
+		if !waitLabel(s.DBAppliedIndex()) {
+			rep.Note("gate schedule: first upload did not happen")
+		}
+		release := make(chan struct{})
+		holding := make(chan struct{})
+		opDone := make(chan error, 1)
+		go func() {
+			opDone <- s.Backup(context.Background(), &command.BackupRequest{Format: command.BackupRequest_BACKUP_REQUEST_FORMAT_BINARY},
+				&c37BlockingWriter{holding: holding, release: release})
+		}()
+		select {
+		case <-holding:
+		case <-time.After(10 * time.Second):
+			t.Fatalf("operator backup never started writing")
+		}
+		// the gate is held now; this write stays in the WAL until a snapshot can checkpoint it
+		if err := write(); err != nil {
+			t.Fatalf("write: %v", err)
+		}
+		final := s.DBAppliedIndex()
+		time.Sleep(400 * time.Millisecond) // several upload rounds (and Provide retries) against the held gate
+		close(release)
+		if err := <-opDone; err != nil {
+			rep.Note("operator backup returned %v", err)
+		}
+		okFinal := waitLabel(final)
+		cancel()
+		<-done
+		st.mu.Lock()
+		objs := st.objs
+		st.mu.Unlock()
+		wmu.Lock()
+		idx := map[int64]uint64{}
+		for k, v := range idxOf {
+			idx[k] = v
+		}
+		wmu.Unlock()
+		replay := map[string]interface{}{"schedule": "operator backup holds the snapshot gate; write; upload rounds; release"}
+		for _, o := range objs {
+			label, _ := strconv.ParseUint(o.id, 10, 64)
+			seqs, err := c37Seqs(dir, o.data, false)
+			if err != nil {
+				rep.Fail("live:uploaded-object-is-not-a-database", err.Error(), replay)
+				continue
+			}
+			for q, i := range idx {
+				if i <= label && !seqs[q] {
+					rep.Fail("live:upload-misses-a-change-at-or-below-its-label:gate-held-by-operator-backup",
+						fmt.Sprintf("object labelled %d lacks write seq=%d committed at index %d: the write was still in the WAL while an operator backup held the snapshot gate", label, q, i), replay)
+					break
+				}
+			}
+		}
+		if !okFinal {
+			rep.Fail("live:change-never-uploaded:gate-held-by-operator-backup", fmt.Sprintf("applied index %d never uploaded after the gate was released", final), replay)
+		}
+		rep.Count("gate-held-schedules")
+		rep.CountN("gate-held:objects-checked", len(objs))
+		rep.Case("gate-held-by-operator-backup", len(objs) >= 2)
+	}
 
 	// ---------- 2. live: real Uploader + real Provider ----------
 	configs := [][2]bool{{false, false}, {false, true}, {true, false}, {true, true}}
